@@ -66,8 +66,14 @@ def run(harnesses, repo="/repo", keep=False, playback=False, jobs=8, timeout=900
         args += ["-Z", "concrete-playback", "--concrete-playback=print"]
     for h in harnesses:
         args += ["--harness", h]
+    lock = None
     try:
-        import signal
+        import signal, fcntl
+        # one cargo-kani at a time per /verif: concurrent checks share the Kani target directory; the time spent waiting for the
+        # lock does not count against the harness timeout
+        os.makedirs(os.path.join(VERIF, ".cache"), exist_ok=True)
+        lock = open(os.path.join(VERIF, ".cache", "kani.lock"), "w")
+        fcntl.flock(lock, fcntl.LOCK_EX)
         pr = subprocess.Popen(args, cwd=d, env=env, stdout=subprocess.PIPE, stderr=subprocess.STDOUT, text=True, start_new_session=True)
         try:
             out, _ = pr.communicate(timeout=timeout)
@@ -78,6 +84,8 @@ def run(harnesses, repo="/repo", keep=False, playback=False, jobs=8, timeout=900
             out = (out or "") + "\nTIMEOUT after %ds" % timeout
             rc = 124
     finally:
+        if lock is not None:
+            lock.close()
         if not keep:
             shutil.rmtree(d, ignore_errors=True)
     res = parse(out, harnesses)
